@@ -11,6 +11,7 @@ import (
 	"go/types"
 	"os"
 	"os/exec"
+	"os/signal"
 	"path/filepath"
 	"regexp"
 	"runtime"
@@ -18,6 +19,7 @@ import (
 	"strconv"
 	"strings"
 	"sync"
+	"syscall"
 	"time"
 
 	"golang.org/x/tools/go/packages"
@@ -351,7 +353,7 @@ func solverName() string {
 
 // defaultInits are standard-library packages whose package-level variables
 // (io.EOF, bytes.ErrTooLarge, ...) the interpreted code compares against.
-var defaultInits = []string{"internal/oserror", "io", "bytes", "bufio", "encoding/binary", "io/fs", "github.com/cockroachdb/errors/oserror"}
+var defaultInits = []string{"internal/oserror", "io", "bytes", "bufio", "encoding/binary", "io/fs", "github.com/cockroachdb/errors/oserror", "github.com/lni/vfs"}
 
 // initFuncs returns the package initialisers to interpret before a harness
 // runs: a few standard-library packages whose variables are compared against,
@@ -1023,14 +1025,30 @@ func cmdList() int {
 	return 0
 }
 
+func init() {
+	if os.Getenv("VERIF_FORKPROF") != "" {
+		ch := make(chan os.Signal, 1)
+		signal.Notify(ch, syscall.SIGTERM, syscall.SIGINT)
+		go func() {
+			<-ch
+			forkProfMu.Lock()
+			dumpForkProf()
+			os.Exit(3)
+		}()
+	}
+}
+
 func main() {
+	defer dumpForkProf()
 	if len(os.Args) < 2 {
 		fmt.Println("usage: vcheck run|replay|list|selftest ...")
 		os.Exit(2)
 	}
 	switch os.Args[1] {
 	case "run":
-		os.Exit(cmdRun(os.Args[2:]))
+		rc := cmdRun(os.Args[2:])
+		dumpForkProf()
+		os.Exit(rc)
 	case "replay":
 		os.Exit(cmdReplay(os.Args[2:]))
 	case "list":
